@@ -241,6 +241,12 @@ func scan(f string, pct bool) (dirs []directive, escs []escape) {
 				continue
 			}
 			e := escape{c: f[i]}
+			if pct && e.c == '%' {
+				// the backslash is literal, the % starts a directive
+				escs = append(escs, e)
+				i--
+				continue
+			}
 			take := func(max int, pred func(byte) bool) {
 				j := i + 1
 				for j < len(f) && j-i-1 < max && pred(f[j]) {
@@ -339,6 +345,31 @@ func uniClass(e escape, cl *[]string) {
 	}
 }
 
+// does a %b argument expand to bytes below 0x80 only? (decided on the input: raw bytes and escape values)
+func bExpandsToASCII(arg string) bool {
+	if !ascii(arg) {
+		return false
+	}
+	_, escs := scan(arg, false)
+	for _, e := range escs {
+		switch {
+		case isOct(e.c):
+			d := e.digits
+			if e.c != '0' {
+				d = string(e.c) + d
+			}
+			if n, _ := strconv.ParseUint("0"+d, 8, 32); n%256 >= 0x80 {
+				return false
+			}
+		case e.c == 'x' || e.c == 'u' || e.c == 'U':
+			if n, _ := strconv.ParseUint("0"+e.digits, 16, 64); e.digits != "" && n >= 0x80 {
+				return false
+			}
+		}
+	}
+	return true
+}
+
 func ascii(s string) bool {
 	for i := 0; i < len(s); i++ {
 		if s[i] >= 0x80 {
@@ -364,8 +395,13 @@ func classify(k kase) (cl, ood []string) {
 			case a == "-e":
 				doExpand = true
 			case len(a) > 2 && a[0] == '-' && strings.Trim(a[1:], "neE") == "":
-				add(&cl, "echo_combined_options")
-				break opts
+				for _, c := range a[1:] {
+					if c == 'e' {
+						doExpand = true
+					} else if c == 'E' {
+						doExpand = false
+					}
+				}
 			default:
 				break opts
 			}
@@ -382,12 +418,6 @@ func classify(k kase) (cl, ood []string) {
 		add(&ood, "format_looks_like_option")
 	}
 	dirs, escs := scan(k.Fmt, true)
-	for _, e := range escs {
-		if e.c == '%' {
-			// the code takes \% as a two-byte literal; bash writes the backslash and starts a directive
-			add(&cl, "backslash_percent")
-		}
-	}
 	for _, e := range escs {
 		if e.c == 'u' || e.c == 'U' {
 			uniClass(e, &cl)
@@ -431,13 +461,9 @@ func classify(k kase) (cl, ood []string) {
 			if d.flags != "" || d.width != "" {
 				add(&cl, "percent_with_flags_or_width")
 			}
-		case 's', 'c':
+		case 's', 'c', 'b':
 			if zero && wid > 0 {
 				add(&cl, "zero_flag_on_string")
-			}
-		case 'b':
-			if wid > 0 {
-				add(&cl, "b_width_ignored")
 			}
 		case 'u', 'o', 'x':
 			if strings.ContainsAny(d.flags, "+ ") {
@@ -460,6 +486,9 @@ func classify(k kase) (cl, ood []string) {
 			switch d.conv {
 			case 'b':
 				bEscClasses(arg, false, &cl)
+				if wid > 0 && !bExpandsToASCII(arg) {
+					add(&cl, "width_counts_runes")
+				}
 			case 's':
 				if wid > 0 && !ascii(arg) {
 					add(&cl, "width_counts_runes")
@@ -580,8 +609,8 @@ func genBArg(r *rand.Rand) string {
 // a directive the code handles like bash (the proved scope), with the kind of argument it takes
 func genDirective(r *rand.Rand) (string, byte) {
 	conv := "sbcdiuox%"[r.IntN(9)]
-	if conv == '%' || conv == 'b' {
-		return "%" + string(conv), conv
+	if conv == '%' {
+		return "%%", conv
 	}
 	s := "%"
 	signed := conv == 'd' || conv == 'i'
@@ -597,7 +626,7 @@ func genDirective(r *rand.Rand) (string, byte) {
 			s += " "
 		}
 	}
-	if r.IntN(4) == 0 && conv != 's' && conv != 'c' {
+	if r.IntN(4) == 0 && conv != 's' && conv != 'c' && conv != 'b' {
 		s += hx.Pick(r, []string{"0", "00"})
 	}
 	if r.IntN(2) == 0 {
@@ -631,6 +660,9 @@ func genScope(r *rand.Rand) kase {
 			f += genEsc(r)
 		default:
 			d, c := genDirective(r)
+			if r.IntN(10) == 0 {
+				f += `\` // literal backslash; the % after it still starts the directive
+			}
 			f += d
 			if c != '%' {
 				convs = append(convs, c)
@@ -722,13 +754,14 @@ func genEcho(r *rand.Rand, class bool) kase {
 		}
 	}
 	if r.IntN(3) > 0 {
-		k.Args = append([]string{"-e"}, k.Args...)
+		k.Args = append([]string{hx.Pick(r, []string{"-e", "-e", "-ne", "-en", "-Ee", "-nEe", "-ee"})}, k.Args...)
+	}
+	if r.IntN(8) == 0 {
+		k.Args = append(k.Args, hx.Pick(r, []string{"-", "-nx", "--", "-e-", "-N"})) // not option words
 	}
 	if class {
 		k.Stream = "class"
-		switch r.IntN(3) {
-		case 0:
-			k.Args = append(k.Args, hx.Pick(r, []string{"-ne", "-en", "-nE", "-eE", "-nn", "-ee"}))
+		switch 1 + r.IntN(2) {
 		case 1:
 			k.Args = append(k.Args, "-e", hx.Pick(r, []string{`a\cb`, `\c`, `x\'`, `\"q`, `\?`}))
 		case 2:
@@ -794,7 +827,7 @@ var pinned = []kase{
 	{Kind: "printf", Fmt: "%d", Args: []string{"abc"}, Stream: "pinned"},
 	{Kind: "printf", Fmt: "%d", Args: []string{"'a"}, Stream: "pinned"},
 	{Kind: "printf", Fmt: "%05s|", Args: []string{"ab"}, Stream: "pinned"},
-	{Kind: "printf", Fmt: "%5b|", Args: []string{"x"}, Stream: "pinned"},
+	{Kind: "printf", Fmt: "%5b|", Args: []string{"x"}, Stream: "pinned-fixed"},
 	{Kind: "printf", Fmt: "%+x", Args: []string{"255"}, Stream: "pinned"},
 	{Kind: "printf", Fmt: "%+ d", Args: []string{"5"}, Stream: "pinned"},
 	{Kind: "printf", Fmt: "abc%", Args: nil, Stream: "pinned"},
@@ -804,8 +837,8 @@ var pinned = []kase{
 	{Kind: "printf", Fmt: "%b", Args: []string{`\'`}, Stream: "pinned"},
 	{Kind: "printf", Fmt: "%5s|", Args: []string{"é"}, Stream: "pinned"},
 	{Kind: "printf", Fmt: `\ud800`, Args: nil, Stream: "pinned"},
-	{Kind: "printf", Fmt: `\%d|`, Args: []string{"7"}, Stream: "pinned"},
-	{Kind: "echo", Args: []string{"-ne", `a\n`}, Stream: "pinned"},
+	{Kind: "printf", Fmt: `\%d|`, Args: []string{"7"}, Stream: "pinned-fixed"},
+	{Kind: "echo", Args: []string{"-ne", `a\n`}, Stream: "pinned-fixed"},
 	{Kind: "echo", Args: []string{"-e", `\101`}, Stream: "pinned"},
 	{Kind: "echo", Args: []string{"-e", `a\cb`, "x"}, Stream: "pinned"},
 }
